@@ -28,7 +28,7 @@ PROPS = {
         "theorems": T("C19", ["truncateG_total", "caret_under_char", "displayCol_bounds", "truncate_len_le", "truncate_len_exact",
                                "truncate_short", "caret_prefix_len", "caret_prefix_tabs", "window_sound", "window_complete",
                                "window_has_reported_line", "no_excerpt", "render_header", "maxLineLength_ge_4", "context_is_2_1",
-                               "caret_under_char_repo"]),
+                               "caret_under_char_repo", "natDigits_length_mono", "gutter_aligned"]),
         "suites": ["excerpt"],
         "assumptions": [
             "columns are byte columns (token.Position.Column counts bytes); visual alignment after multi-byte characters is not claimed",
